@@ -354,7 +354,9 @@ pub(super) fn derive_schema(input: TokenStream) -> syn::Result<TokenStream> {
                     continue
                 }
 
-                let tag = {
+                let is_unit = matches!(v.fields, Fields::Unit);
+
+                let tag_name = {
                     let mut name = v.ident.unraw().to_string();
                     if let Some((_, case)) = container_attrs.serde.rename_all.value()? {
                         name = case.apply_to_variant(&name);
@@ -381,6 +383,11 @@ pub(super) fn derive_schema(input: TokenStream) -> syn::Result<TokenStream> {
                     schema_of_fields(v.fields, rename_all)?
                 };
 
+                /* the tag is a constant string, not a reference to a component */
+                let tag = quote! {
+                    ::ohkami::openapi::string().enumerates([#tag_name])
+                };
+
                 schema = match (
                     &*container_attrs.serde.tag,
                     &*container_attrs.serde.content,
@@ -391,16 +398,20 @@ pub(super) fn derive_schema(input: TokenStream) -> syn::Result<TokenStream> {
                     }
 
                     (None, _, _) => {/* Externally tagged */
-                        quote! {
+                        if is_unit {
+                            tag
+                        } else {quote! {
                             ::ohkami::openapi::object()
-                                .property(#tag, #schema)
-                        }
+                                .property(#tag_name, #schema)
+                        }}
                     }
 
                     (Some(t), None, _) => {/* Internally tagged */
                         let t = LitStr::new(t, Span::call_site());
                         quote! {
-                            #schema
+                            ::ohkami::openapi::schema::Schema::<::ohkami::openapi::schema::Type::object>::from(
+                                ::ohkami::openapi::schema::RawSchema::from(#schema)
+                            )
                                 .property(#t, #tag)
                         }
                     }
@@ -408,12 +419,14 @@ pub(super) fn derive_schema(input: TokenStream) -> syn::Result<TokenStream> {
                     (Some(t), Some(c), _) => {/* Adjacently tagged */
                         let t = LitStr::new(t, Span::call_site());
                         let c = LitStr::new(c, Span::call_site());
-                        quote! {
+                        if is_unit {quote! {
+                            ::ohkami::openapi::object()
+                                .property(#t, #tag)
+                        }} else {quote! {
                             ::ohkami::openapi::object()
                                 .property(#t, #tag)
                                 .property(#c, #schema)
-                        }
-
+                        }}
                     }
                 };
 
